@@ -1,9 +1,10 @@
 //@ crate: grin_core
 //@ target: core/src/core/merkle_proof.rs
 //@ assume: IDEAL HASH: blake2b is replaced by a hash-consing table -- equal inputs get the same 16-bit tag, distinct inputs distinct tags (Blake2b::update records the bytes, HashWriter::finalize looks the record up); results hold assuming collision resistance of blake2b; attacker-chosen path hashes range over all tags
-//@ assume: BOUNDED stand-in: MMR sizes 1, 3, 4 and 7 (1..4 leaves) with the honest root and sibling paths built by the harness directly from the MMR definition (leaf hash over position and data, parent hash over position and both children, peaks bagged right to left with the size); Merkle soundness for larger trees is NOT proved
+//@ assume: BOUNDED stand-in: MMR sizes 1, 3, 4, 7 (1..4 leaves) and 19 (11 leaves: three peaks with a gap in their heights, the shape in which the bagging of peaks above a leaf's own peak takes more than one step; the 8-leaf left peak enters only through its hash) with the honest root and sibling paths built by the harness directly from the MMR definition (leaf hash over position and data, parent hash over position and both children, peaks bagged right to left with the size); Merkle soundness for larger trees is NOT proved
 //@ harness c07_merkle_size1 kind=bounded tier=quick fns=MerkleProof::verify,MerkleProof::verify_consume bound=mmr_size_1
 //@ harness c07_merkle_size3 kind=bounded tier=quick fns=MerkleProof::verify,MerkleProof::verify_consume,pmmr::peaks,pmmr::family,pmmr::is_left_sibling bound=mmr_size_3
+//@ harness c07_merkle_size19 kind=bounded tier=quick fns=MerkleProof::verify,MerkleProof::verify_consume,pmmr::peaks,pmmr::family,pmmr::is_left_sibling bound=mmr_size_19_three_peaks_of_heights_3_1_0_leaves_under_the_two_right_peaks
 //@ harness c07_merkle_size4 kind=bounded tier=thorough optional=1 fns=MerkleProof::verify,MerkleProof::verify_consume bound=mmr_size_4
 //@ harness c07_merkle_size7 kind=bounded tier=thorough optional=1 fns=MerkleProof::verify,MerkleProof::verify_consume bound=mmr_size_7
 use crate::core::hash::{DefaultHashable, HashWriter};
@@ -201,4 +202,23 @@ merkle_harness!(c07_merkle_size7, {
 	} else {
 		check(7, root, &e3, 4, vec![h3, p2], 1);
 	}
+});
+
+// 11 leaves: peaks at 14 (height 3), 17 (height 1), 18 (height 0); root = H(p14, H(p17, h18)) with index 19.
+// Only the three leaves under the two right-hand peaks get proofs here; the left peak is opaque.
+merkle_harness!(c07_merkle_size19, {
+	let e8 = KElem(kani::any());
+	let e9 = KElem(kani::any());
+	let e10 = KElem(7);
+	let p14 = node(tag_hash(kani::any()), tag_hash(kani::any()), 14);
+	let h15 = leaf(&e8, 15);
+	let h16 = leaf(&e9, 16);
+	let p17 = node(h15, h16, 17);
+	let h18 = leaf(&e10, 18);
+	let rhs = node(p17, h18, 19);
+	let root = node(p14, rhs, 19);
+	// completeness only (the tampering checks run on the smaller shapes): the honest proof of the left leaf under the
+	// middle peak verifies -- two bagging steps above its own peak
+	let honest = MerkleProof { mmr_size: 19, path: vec![h16, h18, p14] };
+	assert!(honest.verify(root, &e8, 15).is_ok(), "C07: an honest Merkle proof verifies (three peaks with a height gap)");
 });
